@@ -637,9 +637,10 @@ example : getStateStale (T := PStr) id (⟨ofS "ab", none⟩ : PDoc PStr) = ofS 
   decide +kernel
 
 /-- the model's reading of `__getstate__`/`__setstate__`, from the live source: the only statement of `__getstate__` that
-    touches `markup` is the unconditional `d['markup'] = self.decode()`; `__setstate__` rebuilds with `reset()` + `_feed()` -/
+    touches `markup` is the unconditional `d['markup'] = self.decode(eventual_encoding=None)` (no target encoding: <meta> declarations
+    are left as they are, f08ffee); `__setstate__` rebuilds with `reset()` + `_feed()` -/
 theorem pickle_source :
-    BS.Gen.Copy.getstateMarkup = [ofS "d['markup'] = self.decode()"] ∧
+    BS.Gen.Copy.getstateMarkup = [ofS "d['markup'] = self.decode(eventual_encoding=None)"] ∧
     BS.Gen.Copy.setstateCalls = [ofS "self.reset()", ofS "self._feed()"] := by decide +kernel
 
 /-! ### the model's reading of `copy_self`, pinned to the live source -/
